@@ -27,8 +27,8 @@ const (
 	Coll // one of the seven collection kinds
 	GoSlice
 	GoMap
-	Self    // back-reference to the k-th enclosing collection (cyclic values)
-	Opaque  // a value the notation does not support (struct, chan): for failure histories
+	Self   // back-reference to the k-th enclosing collection (cyclic values)
+	Opaque // a value the notation does not support (struct, chan): for failure histories
 )
 
 // Collection kind names as the notation prints them.
@@ -57,14 +57,14 @@ type Val struct {
 	Up    int // Self: how many collection levels up
 }
 
-func VNil() Val                  { return Val{K: Nil} }
-func VBool(b bool) Val           { return Val{K: Bool, B: b} }
-func VInt(i int64) Val           { return Val{K: Int, I: i} }
-func VUint(u uint64) Val         { return Val{K: Uint, U: u} }
-func VFloat(f float64) Val       { return Val{K: Float, F: f} }
-func VComplex(c complex128) Val  { return Val{K: Complex, C: c} }
-func VRune(r rune) Val           { return Val{K: Rune, R: r} }
-func VStr(s string) Val          { return Val{K: Str, S: s} }
+func VNil() Val                 { return Val{K: Nil} }
+func VBool(b bool) Val          { return Val{K: Bool, B: b} }
+func VInt(i int64) Val          { return Val{K: Int, I: i} }
+func VUint(u uint64) Val        { return Val{K: Uint, U: u} }
+func VFloat(f float64) Val      { return Val{K: Float, F: f} }
+func VComplex(c complex128) Val { return Val{K: Complex, C: c} }
+func VRune(r rune) Val          { return Val{K: Rune, R: r} }
+func VStr(s string) Val         { return Val{K: Str, S: s} }
 func VColl(ck string, items ...Val) Val {
 	return Val{K: Coll, CK: ck, Items: items}
 }
